@@ -479,6 +479,14 @@ func ConvertSliceValueType(destTyp reflect.Type, v reflect.Value) (reflect.Value
 		case elemUintType:
 			sl.Index(i).SetUint(EnsureUint64(itemValue.Interface()))
 		default:
+			if elemKind == reflect.Slice && itemValue.IsValid() && itemValue.Kind() == reflect.Slice && itemValue.Type() != destTyp.Elem() {
+				// a list of lists: the inner list needs the same conversion
+				cv, err := ConvertSliceValueType(destTyp.Elem(), itemValue)
+				if err != nil {
+					return _zeroValue, err
+				}
+				itemValue = cv
+			}
 			SetValue(sl.Index(i), itemValue)
 		}
 	}
